@@ -72,6 +72,9 @@ type Contract struct {
 	Guarantees []*Clause
 	Relies   []*Clause
 	CallAsserts []*CallAssert
+	CallInvs    []*CallAssert // callsite <callee> invariant <expr>: invariant of the callback iteration performed by the callee
+	Iterates    string        // name of the function-typed parameter the callee calls zero or more times (its only effect)
+	Yields      []*Clause     // constraints on the arguments passed to the callback (cb0, cb1, ...)
 	Assigns  []SExpr
 	HasAssigns bool
 	Loops    map[int]*LoopSpec
@@ -95,6 +98,9 @@ func (c *Contract) AllClauses() []*Clause {
 	out = append(out, c.Requires...)
 	out = append(out, c.Ensures...)
 	for _, ca := range c.CallAsserts {
+		out = append(out, ca.Clause)
+	}
+	for _, ca := range c.CallInvs {
 		out = append(out, ca.Clause)
 	}
 	for _, ls := range c.Loops {
@@ -136,7 +142,7 @@ func NewSpecSet() *SpecSet {
 	return &SpecSet{SpecFuncs: map[string]*SpecFunc{}, GhostVars: map[string]*GhostVar{}, AxiomPkg: map[*Clause]string{}}
 }
 
-var keywordRe = regexp.MustCompile(`^(typepaths|package|func|prop|mode|requires|ensures|guarantee|rely|callsite|assigns|loop|let|eval|trusted|pure|maypanic|spec|ghost|axiom|lemma|end|noinline|inline|concurrent|safety|flag|terminates)\b`)
+var keywordRe = regexp.MustCompile(`^(iterates|yields|typepaths|package|func|prop|mode|requires|ensures|guarantee|rely|callsite|assigns|loop|let|eval|trusted|pure|maypanic|spec|ghost|axiom|lemma|end|noinline|inline|concurrent|safety|flag|terminates)\b`)
 
 // ParseSpecFile reads //@ lines from a Go file or a .gospec file.
 // defaultPkg is the package path of the directory for in-repo contract files.
@@ -364,8 +370,14 @@ func (ss *SpecSet) ParseSpecFile(path, defaultPkg string) {
 				}
 			case "callsite":
 				fs := strings.SplitN(rest, " ", 3)
+				if len(fs) == 3 && fs[1] == "invariant" {
+					label, body := splitLabel(fs[2])
+					props, body := splitProps(body)
+					cur.CallInvs = append(cur.CallInvs, &CallAssert{Callee: fs[0], Clause: &Clause{Kind: "callsite " + fs[0] + " invariant", Text: body, Expr: parse(l, body), File: path, Line: l.no, Label: label, Props: props}})
+					continue
+				}
 				if len(fs) < 3 || fs[1] != "asserts" {
-					errf(l, "expected: callsite <callee> asserts <expr>")
+					errf(l, "expected: callsite <callee> asserts|invariant <expr>")
 					continue
 				}
 				label, body := splitLabel(fs[2])
@@ -387,6 +399,10 @@ func (ss *SpecSet) ParseSpecFile(path, defaultPkg string) {
 				name := strings.TrimSpace(rest[:i])
 				body := strings.TrimSpace(rest[i+1:])
 				cur.Lets = append(cur.Lets, LetDef{Name: name, Expr: parse(l, body), Text: body})
+			case "iterates":
+				cur.Iterates = strings.TrimSpace(rest)
+			case "yields":
+				cur.Yields = append(cur.Yields, &Clause{Kind: "yields", Text: rest, Expr: parse(l, rest), File: path, Line: l.no})
 			case "trusted", "maypanic", "noinline", "inline", "terminates":
 				cur.Flags[kw] = "1"
 			case "concurrent", "safety", "flag":
